@@ -773,7 +773,7 @@ func (g *G) onlyRouteFamily(rid int) {
 		}
 		// table operations that leave p the only route (a Clean of a prefix nothing lives under, a static route that comes
 		// and goes, a Remove of an absent pattern, a strict URL): state kept beside the tree must survive them
-		switch g.intn(7) {
+		switch g.intn(9) {
 		case 0:
 			g.emit("clean %d %s", rid, encB(g.pick([]string{"/admin", "/o/x", "/o/{idx", "/z"})))
 		case 1:
@@ -786,9 +786,57 @@ func (g *G) onlyRouteFamily(rid int) {
 			g.emit("remove %d /nothing %%-", rid)
 		case 4:
 			g.emit("url %d 1 %s %s", rid, encB(p), g.paramsFor(p))
+		case 5, 6:
+			// a sibling that splits the parameter node of p comes and goes: the tree keeps the split, p is the only route again
+			alt := map[string]string{"": "/z", "/x": "/y", ".html": ".htm", "/{k}": "/{k}/m"}[tail]
+			if g.chance(0.3) {
+				alt = map[string]string{"": "-z", "/x": "/xy", ".html": ".json", "/{k}": "/q"}[tail]
+			}
+			g.emit("handle %d %s 92 %%- %s", rid, encB("/o/{id"+rule+"}"+alt), encL([]string{"GET"}))
+			g.emit("remove %d %s %%-", rid, encB("/o/{id"+rule+"}"+alt))
 		}
 		g.emit("handle %d %s %d %s %s", rid, encB(v), 2+i, "%-", encL([]string{g.pick([]string{"GET", "POST", "PUT"})}))
 		probe()
+	}
+}
+
+// splitRemoveFamily: ONE live route whose parameter node was split by a sibling that has been removed again (the tree
+// keeps the split: `{id}/` + `x`); every name-only / '-' variant of the route is still "identical up to parameter names to
+// the only other route" and must be rejected; patterns that differ in their literal text must not be.
+func (g *G) splitRemoveFamily(rid int) {
+	g.routerLine(rid, routerOpt{name: "spl" + strconv.Itoa(rid), icpt: icptTable})
+	rule := g.pick([]string{"", ":\\d+", ":digit", ":[a-z]+"})
+	tails := [][2]string{{"/x", "/y"}, {".html", ".htm"}, {"/x/{k}", "/x-{k}"}, {"-a", "-b"}, {"/author", "/avatar"}, {"/ab", "/a"}}
+	tl := tails[g.intn(len(tails))]
+	pre := g.pick([]string{"/o/", "/", ""})
+	mk := func(name, tail string) string { return pre + "{" + name + rule + "}" + tail }
+	p, sib := mk("id", tl[0]), mk("id", tl[1])
+	g.emit("handle %d %s 1 %s %s", rid, encB(p), "%-", encL([]string{"GET"}))
+	probe := func() {
+		g.emit("routes %d", rid)
+		for _, m := range []string{"GET", "POST", "OPTIONS"} {
+			g.serveLine("serve", rid, m, g.instantiate(p, []string{"5", "ab"}), "", nil)
+			g.serveLine("serve", rid, m, g.instantiate(sib, []string{"5", "ab"}), "", nil)
+		}
+	}
+	g.emit("handle %d %s 2 %s %s", rid, encB(sib), "%-", encL([]string{"GET"}))
+	if g.chance(0.3) { // the variant while BOTH routes are live (it may or may not be rejected: p is not the only other route)
+		g.emit("handle %d %s 3 %s %s", rid, encB(mk("uid", tl[0])), "%-", encL([]string{"PUT"}))
+		g.emit("remove %d %s %s", rid, encB(mk("uid", tl[0])), "%-")
+	}
+	probe()
+	if g.chance(0.5) {
+		g.emit("remove %d %s %s", rid, encB(sib), "%-")
+	} else {
+		g.emit("remove %d %s %s", rid, encB(sib), encL([]string{"GET"}))
+	}
+	probe()
+	for i, v := range []string{mk("uid", tl[0]), mk("-id", tl[0]), mk("x", tl[0]), mk("uid", tl[1]), mk("uid", tl[0]+"z"), mk("uid", "")} {
+		g.emit("handle %d %s %d %s %s", rid, encB(v), 4+i, "%-", encL([]string{g.pick([]string{"GET", "POST", "PUT"})}))
+		probe()
+		if i >= 3 { // the patterns that differ in literal text are accepted: take them out again
+			g.emit("remove %d %s %s", rid, encB(v), "%-")
+		}
 	}
 }
 
@@ -797,6 +845,10 @@ func streamReject(g *G) { // C17
 	for !g.full() {
 		if g.chance(0.25) {
 			g.onlyRouteFamily(rid)
+			rid++
+		}
+		if g.chance(0.3) {
+			g.splitRemoveFamily(rid)
 			rid++
 		}
 		if g.chance(0.4) {
@@ -1011,6 +1063,8 @@ func streamCors(g *G) { // C11, C12
 				{"handle %d /a 3 %%- " + encL([]string{"DELETE"})},
 				{"handle %d " + encB("/u/{id}") + " 4 %%- " + encL([]string{"GET", "PATCH"})},
 				{"remove %d /a " + encL([]string{"POST"})},
+				{"remove %d /a " + encL([]string{"DELETE"})},                                    // a method the route may not have: ignored
+				{"remove %d /a " + encL([]string{"PATCH", "CONNECT"}), "remove %d /a " + encL([]string{"PATCH"})}, // twice
 				{"remove %d " + encB("/u/{id}") + " " + encL([]string{"PUT"})},
 				{"handle %d /b 5 %%- " + encL([]string{"PUT"})},
 				{"clean %d /u"},
@@ -1461,6 +1515,11 @@ func streamHead(g *G) { // C08
 	rid := 1
 	for !g.full() {
 		g.routerLine(rid, routerOpt{name: "h", trace: g.chance(0.3)})
+		if g.chance(0.5) {
+			// /r is an interior node (a longer pattern lives below it): when its last method is removed BY NAME the node
+			// stays in the tree with an empty handler table; a later registration revives it
+			g.emit("handle %d %s 9 %%- %s", rid, encB(g.pick([]string{"/r/{id}", "/r/x", "/r.json"})), encL([]string{"GET"}))
+		}
 		for s := 0; s < 12; s++ {
 			switch g.intn(6) {
 			case 0, 1:
@@ -1620,6 +1679,53 @@ func streamFacade(g *G) { // C19: the same program through façades (router A) a
 				pool = append(pool, p)
 				both(fmt.Sprintf("handle %d %s %d %%- %s", a, encB(p), nextH, encL([]string{"GET"})), fmt.Sprintf("handle %d %s %d %%- %s", b, encB(p), nextH, encL([]string{"GET"})))
 				nextH++
+			}
+		}
+		if g.chance(0.4) {
+			// a live route that is a proper prefix of a façade's prefix and ends at a node boundary, everything below it
+			// under that prefix: Prefix.Clean must leave it alone (also after one of the routes below was removed)
+			fam := [][]string{{"/", "/api/v1", "/api/v2", "/api"}, {"/a", "/a/b", "/a/c", "/a/b"}, {"/s/", "/s/x/1", "/s/x/2", "/s/x"}, {"/u/{id}", "/u/{id}/p/a", "/u/{id}/p/b", "/u/{id}/p"}}[g.intn(4)]
+			for _, p := range fam[:3] {
+				pool = append(pool, p)
+				both(fmt.Sprintf("handle %d %s %d %%- %s", a, encB(p), nextH, encL([]string{"GET"})), fmt.Sprintf("handle %d %s %d %%- %s", b, encB(p), nextH, encL([]string{"GET"})))
+				nextH++
+			}
+			if g.chance(0.4) {
+				both(fmt.Sprintf("remove %d %s %%-", a, encB(fam[2])), fmt.Sprintf("remove %d %s %%-", b, encB(fam[2])))
+			}
+			g.emit("facade %d %d prefix - %s %%-", nextF, a, encB(fam[3]))
+			facs = append(facs, fac{id: nextF, pattern: fam[3]})
+			both(fmt.Sprintf("fclean %d", nextF), fmt.Sprintf("clean %d %s", b, encB(fam[3])))
+			nextF++
+			both(fmt.Sprintf("routes %d", a), fmt.Sprintf("routes %d", b))
+			for _, p := range fam[:3] {
+				w := g.instantiate(p, simpleValues)
+				g.serveLine("serve", a, "GET", w, "", nil)
+				g.serveLine("serve", b, "GET", w, "", nil)
+			}
+			g.serveLine("serve", a, "OPTIONS", "*", "", nil)
+			g.serveLine("serve", b, "OPTIONS", "*", "", nil)
+		}
+		if g.chance(0.4) {
+			// the caller's middleware list is a prefix of a longer list it uses again later (ms[:2]... then ms...): a façade
+			// with middlewares of its own must not write into the caller's backing array
+			own := []int{1 + g.intn(3), 4 + g.intn(3)}
+			long := []int{7, 8, 9}
+			g.emit("facade %d %d %s - %s %s", nextF, a, "prefix", encB("/al"), encNatList(own))
+			f := fac{id: nextF, pattern: "/al", ms: own, own: own}
+			facs = append(facs, f)
+			nextF++
+			for i, l := range [][]int{long, long[:2], long, long[:1], long} {
+				sub := "/" + string(rune('k'+i))
+				pool = append(pool, f.pattern+sub)
+				both(fmt.Sprintf("fhandle %d %s %d %s %s", f.id, encB(sub), nextH, encNatList(l), encL([]string{"GET"})),
+					fmt.Sprintf("handle %d %s %d %s %s", b, encB(f.pattern+sub), nextH, encNatList(append(append([]int(nil), l...), f.ms...)), encL([]string{"GET"})))
+				nextH++
+			}
+			for i := 0; i < 5; i++ {
+				w := f.pattern + "/" + string(rune('k'+i))
+				g.serveLine("serve", a, "GET", w, "", nil)
+				g.serveLine("serve", b, "GET", w, "", nil)
 			}
 		}
 		for s := 0; s < 10+g.intn(15); s++ {
@@ -1887,6 +1993,14 @@ func twinPattern(p string) string {
 	return b.String()
 }
 
+// streamRender is not random: every method bitmask (2^len(Methods) of them, and a few beyond) through the method-set
+// memo of the implementation and through renderMethods/allowHeader of the model — an exhaustive tie of that table.
+func streamRender(g *G) {
+	for m := 0; m < 1<<10+8 && !g.full(); m++ { // 9 methods today; the extra bit also covers a table that grows by one
+		g.emit("u-render %d", m)
+	}
+}
+
 func streamUnit(g *G) { // unit level: the parser and the segment matcher through the verif hooks
 	ic := encKVs(icptTable)
 	for _, seg := range []string{"{tag:any}--edit", "{tag:any}--", "{a:any}aa", "{w:word}abab/", "{id:digit}11/x", "{e:even}22", "{s:starta}aa"} {
@@ -1939,7 +2053,7 @@ func streamUnit(g *G) { // unit level: the parser and the segment matcher throug
 }
 
 var streams = map[string]func(*G){
-	"unit": streamUnit,
+	"unit": streamUnit, "render": streamRender,
 	"dispatch": streamDispatch, "resolve": streamResolve, "lifecycle": streamLifecycle, "allow": streamAllow,
 	"crash": streamCrash, "reject": streamReject, "onion": streamOnion, "url": streamURL, "cors": streamCors,
 	"group": streamGroup, "hosts": streamHosts, "version": streamVersion, "fault": streamFault, "head": streamHead,
